@@ -108,6 +108,11 @@ func Lookalikes(level int) []*tv.Package {
 	add("int/signed-shr", "func FN(x uint64) uint64 {\n\treturn uint64(int(x) >> 1)\n}")
 	add("int/countdown-loop", "func FN(a []uint64) uint64 {\n\tvar s uint64 = 0\n\tfor i := len(a) - 1; i >= 0; i-- {\n\t\ts += a[i]\n\t}\n\treturn s\n}")
 	add("int/signed-local", "func FN(x uint64) bool {\n\tvar d int = int(x) - 10\n\treturn d > 0\n}")
+	add("conv/paren-type-name-widen", "func FN(x uint32) uint64 {\n\treturn (uint64)(x) + 1\n}")
+	add("conv/paren-type-name-narrow", "func FN(x uint64) byte {\n\treturn (byte)(x)\n}")
+	add("conv/paren-bytes-of-string", "func FN(s string) uint64 {\n\tb := ([]byte)(s)\n\treturn uint64(len(b))\n}")
+	add("conv/paren-string-of-bytes", "func FN(b []byte) string {\n\treturn (string)(b) + \"x\"\n}")
+	add("conv/paren-builtin-call", "func FN(a []uint64) uint64 {\n\treturn uint64((len)(a))\n}")
 	add("int/newtype-width-conv", "type FNT uint32\n\nfunc FN(a []byte) bool {\n\treturn FNT(len(a)) == FNT(2)\n}")
 	add("int/int64", "func FN(x int64) int64 {\n\treturn x / 2\n}")
 	add("int/uint16", "func FN(x uint16) uint16 {\n\treturn x + 1\n}")
